@@ -28,7 +28,7 @@ func init() {
 
 func runC09(p *core.Prog, r *core.Report) {
 	r.Guard("C09.R2", "visits-all", "no silent truncation", func() {
-		checkNoSilentTruncation(p, r, "C09.R2", []loopSite{{pkgStore, "baseStore.Flush", nil}, {pkgStore, "baseStore.SetDeltas", nil}, {pkgStore, "baseStore.deletePrefix", nil}})
+		checkNoSilentTruncation(p, r, "C09.R2", []loopSite{{pkgStore, "baseStore.Flush", nil}, {pkgStore, "baseStore.SetDeltas", nil}, {pkgStore, "baseStore.deletePrefix", nil}, {pkgStore, "PartialKV.ApplyOps", nil}})
 	})
 
 	kvOps := func() *types.Var { return p.Field(pkgStore, "baseStore", "kvOps") }
